@@ -683,7 +683,12 @@ fn run_typed<D: Dec>(req0: &[&str]) -> String {
                 // formatter options (width, fill, alignment, sign, precision, alternate) are part of the public Display /
                 // Debug surface: whatever the crate does with them, it must not panic (their output is not compared)
                 let _ = format!("{:3}|{:>40}|{:<5}|{:^7}|{:+}|{:08}|{:.2}|{:#?}|{:*^w$}|{:w$}", d, d, d, d, d, d, d, d, d, d, w = 1usize);
-                format!("ok {} {}", hex(s.as_bytes()), if s == g { 1 } else { 0 })
+                // `1` = the Debug text is the Display text; otherwise the Debug text itself (`d<hex>`), judged like Display
+                if s == g {
+                    format!("ok {} 1", hex(s.as_bytes()))
+                } else {
+                    format!("ok {} d{}", hex(s.as_bytes()), hex(g.as_bytes()))
+                }
             })
         }
         ["roundtrip", _, b] => {
